@@ -191,6 +191,8 @@ package band
 //@   loop 0: modifies c
 //@   loop 0: decreases len(b.uplinkChannels) - rangeindex
 
+//@ spec dev_active(dev, c) = !(forall j int :: 0 <= j && j < len(dev) ==> dev[j] != c)
+//@ spec plan_elig(b, dev, ec, cntl) = (!b.uplinkChannels[ec].custom || dev_active(dev, ec)) && ec >= cntl*16 && ec < (cntl+1)*16
 // the generic planner: total for every device channel list (safety / termination / frame only; the
 // planner theorem itself is not decided, see MANIFEST)
 //@ func (*band).GetLinkADRReqPayloadsForEnabledUplinkChannelIndices
@@ -207,8 +209,12 @@ package band
 //@   loop 1: decreases len(diff) - rangeindex
 //@   loop 2: invariant idx: rangeindex >= 0 - 1 && rangeindex < len(enabledChannels)
 //@   loop 2: invariant enabled-valid: forall k int :: 0 <= k && k < len(enabledChannels) ==> 0 <= enabledChannels[k] && enabledChannels[k] < len(b.uplinkChannels)
+// mask construction (completeness): every network-enabled channel of the block that the device can know
+// (standard, or custom and active on the device) has its bit set in the payload of that block
+//@   loop 2: invariant mask-complete: forall k int :: 0 <= k && k <= rangeindex && plan_elig(b, deviceEnabledChannels, enabledChannels[k], chMaskCntl) ==> pl.ChMask[enabledChannels[k] % 16]
 //@   loop 2: modifies pl
 //@   loop 2: decreases len(enabledChannels) - rangeindex
+//@   loop 1: step block-mask-complete: len(payloads) == prev(len(payloads)) + 1 ==> forall k int :: 0 <= k && k < len(enabledChannels) && plan_elig(b, deviceEnabledChannels, enabledChannels[k], diff[rangeindex] / 16) ==> payloads[len(payloads)-1].ChMask[enabledChannels[k] % 16]
 
 // C15: the channel-mask CFList (plans without extra channels): after channel k the payload holds the
 // k/16 completed masks, each bit equal to the channel's enabled flag, and the running mask holds the bits
